@@ -1634,8 +1634,13 @@ namespace bloch::compiler {
             return combine(ValueType::Bit, "");
         if (dynamic_cast<SuperExpression*>(expr)) {
             const ClassInfo* cur = findClass(m_currentClass);
-            if (cur && !cur->base.empty())
+            if (cur && !cur->base.empty()) {
+                // the base with its type arguments, as written after 'extends'
+                TypeInfo base = baseTypeOf(selfType());
+                if (!base.className.empty())
+                    return base;
                 return combine(ValueType::Unknown, cur->base);
+            }
             return combine(ValueType::Unknown, "");
         }
         if (auto call = dynamic_cast<CallExpression*>(expr)) {
@@ -2632,8 +2637,7 @@ namespace bloch::compiler {
             // run time either), so the access and static-context rules still apply
             if (!isFunctionDeclared(var->name)) {
                 if (!m_currentClass.empty())
-                    methodInfo = findMethodInHierarchy(combine(ValueType::Unknown, m_currentClass),
-                                                       var->name, &actualTypes);
+                    methodInfo = findMethodInHierarchy(selfType(), var->name, &actualTypes);
                 if (methodInfo) {
                     if (!isAccessible(methodInfo->visibility, methodInfo->owner, m_currentClass)) {
                         throw BlochError(ErrorCategory::Semantic, node.line, node.column,
@@ -2658,7 +2662,10 @@ namespace bloch::compiler {
                 }
             }
             if (methodInfo) {
-                checkArgs(methodInfo->paramTypes, var->name, node.line, node.column);
+                // a method inherited from a generic base takes that base's type arguments, as it
+                // does in this.m(..)
+                checkArgs(memberTypesFrom(selfType(), methodInfo->owner, methodInfo->paramTypes),
+                          var->name, node.line, node.column);
             } else {
                 size_t expected = getFunctionParamCount(var->name);
                 if (expected != node.arguments.size()) {
